@@ -13,6 +13,8 @@ MCQuestions ==
   CASE Scenario = "instant" -> {"q1", "q2"}
     [] Scenario = "f10"     -> {"r8", "r6"}
     [] Scenario = "range1"  -> {"r8"}
+    [] Scenario = "replay2" -> {"q1", "r2"}       \* schedule replay: an instant question and a 2-slice range query
+    [] Scenario = "replay3" -> {"q1", "r3"}       \* ... and a 3-slice range query
     [] OTHER                -> {"q1", "r8", "r6"}
 
 MCLockKeyOf == [q \in MCQuestions |-> "lock/" \o q]
@@ -20,7 +22,15 @@ MCLockKeyOf == [q \in MCQuestions |-> "lock/" \o q]
 MCReqsOf == [q \in MCQuestions |->
   CASE q = "r8" -> {"s1", "s2"}        \* the older slice is only in the longer look-back
     [] q = "r6" -> {"s2"}
+    [] q = "r2" -> {"s1", "s2"}
+    [] q = "r3" -> {"s1", "s2", "s3"}
     [] OTHER    -> {q}]
+
+\* cache lifetimes (abstract minutes): instant-style answers live 5, range slices 10; an advance of 3 keeps
+\* everything alive, 7 expires the instant answers only, 70 exceeds maxStale as well
+MCTTLOf == [k \in {"q1", "q2", "s1", "s2", "s3"} |-> IF k \in {"q1", "q2"} THEN 5 ELSE 10]
+MCMaxStale == 60
+MCAdvances == {3, 7, 70}
 
 Symm == Permutations(Callers) \cup Permutations(Workers)
 =============================================================================
